@@ -62,7 +62,10 @@ def encode(kind, tree, task=None):
         d = ListOfNumpyData()
         arr = np.frombuffer(blob.encode(), dtype=np.uint8).copy()
         half = len(arr) // 2
-        d.set_value([arr[:half], arr[half:], np.zeros(2)])
+        # the number of arrays varies with the generation of the run, so a result that is not completely replaced
+        # by a recomputation (stale trailing files) is visible
+        extra = (4 - tree.get('#gen', 0) % 3) if isinstance(tree, dict) and '#gen' in tree else 1
+        d.set_value([arr[:half], arr[half:]] + [np.zeros(2)] * extra)
         return d
     if kind in ('dir', 'continues'):
         d = task.get_data_object()
@@ -93,9 +96,13 @@ def decode(kind, value):
             raise ValueError(f'incomplete generated sequence: {items!r}')
         return items[0]
     if kind == 'listnpy':
-        if len(value) != 3 or list(value[2]) != [0, 0]:
+        if len(value) < 3 or any(list(v) != [0, 0] for v in value[2:]):
             raise ValueError('incomplete list of arrays')
-        return json.loads(bytes(np.concatenate(value[:2]).astype(np.uint8)).decode())
+        tree = json.loads(bytes(np.concatenate(value[:2]).astype(np.uint8)).decode())
+        extra = (4 - tree.get('#gen', 0) % 3) if isinstance(tree, dict) and '#gen' in tree else 1
+        if len(value) != 2 + extra:
+            raise ValueError(f'list of arrays has {len(value)} items, the run that wrote the first ones produced {2 + extra}')
+        return tree
     if kind in ('dir', 'continues'):
         p = Path(value)
         if (p / 'sub' / 'more.txt').read_text() != 'x' * 10:
@@ -130,6 +137,8 @@ def body(task, ins, params):
     kind = spec['kind']
     tree = {'t': spec['slug'], 'p': persisted,
             'i': {k: (_totree(spec['input_kinds'].get(k), v)) for k, v in ins.items()}}
+    if CTRL.get('gen') is not None:
+        tree['#gen'] = CTRL['gen']   # generation of the run (which call of the behaviour executed it)
     entry = {'obj': id(task), 'slug': spec['slug'], 'fullname': task.fullname, 'tree': tree, 'raised': False,
              'key': _safe_key(task)}
     RUNSEQ[0] += 1
